@@ -38,11 +38,17 @@ pub struct P {
     pub real_feed: bool,
     /// the second trader trades the SAME way as alice (alice ends up in profit)
     pub with_trend: bool,
+    /// native deployments: a symbolic amount of collateral coins is attached to the engine
+    /// messages that need none (ClosePosition, Liquidate, PayFunding, WithdrawMargin)
+    pub attached: bool,
+    /// native deployments: the coins attached to DepositMargin are a variable of their own
+    /// (below / equal to / above the amount argument)
+    pub sym_funds: bool,
 }
 
 impl P {
     pub fn new(prop: &'static str, side: Side, seed: u64) -> P {
-        P { prop, native: false, dec: 9, fees: false, side, wide: false, seed, partial_sym: false, full_prefix: false, concrete_prefix: false, sym_lev: false, sym_lim: false, sym_ratios: false, bystanders: prop == "C10", sym_oracle: false, sym_counter: false, fault: None, real_feed: false, with_trend: false }
+        P { prop, native: false, dec: 9, fees: false, side, wide: false, seed, partial_sym: false, full_prefix: false, concrete_prefix: false, sym_lev: false, sym_lim: false, sym_ratios: false, bystanders: prop == "C10", sym_oracle: false, sym_counter: false, fault: None, real_feed: false, with_trend: false, attached: false, sym_funds: false }
     }
     pub fn native(mut self) -> P {
         self.native = true;
@@ -122,6 +128,10 @@ impl P {
     pub fn run_cfg(&self, cfg: Cfg) -> Run {
         let mut r = Run::new(cfg, Mon::only(self.prop));
         r.fault = self.fault;
+        if self.attached && self.native {
+            let d = r.w.d;
+            r.w.attach = Some(crate::sx::var("attach", 0, 1_000 * d, 7 * d));
+        }
         if self.bystanders {
             let d = r.w.d;
             let was_full = symrt::is_full();
@@ -138,6 +148,14 @@ impl P {
     }
     pub fn fault(mut self, site: &'static str, n: u64) -> P {
         self.fault = Some((site, n));
+        self
+    }
+    pub fn attached(mut self) -> P {
+        self.attached = true;
+        self
+    }
+    pub fn sym_funds(mut self) -> P {
+        self.sym_funds = true;
         self
     }
     pub fn trend(mut self) -> P {
@@ -175,6 +193,8 @@ impl P {
             + if self.sym_counter { ".counter" } else { "" }
             + if self.real_feed { ".realfeed" } else { "" }
             + if self.with_trend { ".trend" } else { "" }
+            + if self.attached { ".attached" } else { "" }
+            + if self.sym_funds { ".symfunds" } else { "" }
     }
     fn prefix_mode(&self) {
         symrt::set_full(self.full_prefix);
@@ -331,7 +351,14 @@ pub fn t_depwd(p: P) -> impl Fn() {
         r.w.next_block(15);
         symrt::set_full(true);
         let a = amount("dep", d, p.wide, 10);
-        let f = if p.native { Some(a) } else { None };
+        let f = if p.native && p.sym_funds {
+            // seeded above the amount; the engine's own comparison forks the other orders
+            Some(amount("depf", d, p.wide, if p.seed % 2 == 0 { 15 } else { 10 }))
+        } else if p.native {
+            Some(a)
+        } else {
+            None
+        };
         r.step(Op::Deposit { who: ALICE, amount: a, funds: f });
         let b = amount("wd", d, p.wide, 5);
         r.step(Op::Withdraw { who: ALICE, amount: b });
@@ -585,6 +612,91 @@ pub fn t_liq_profitable(p: P) -> impl Fn() {
     }
 }
 
+/// T-liq-band: alice 10x deep under water; the owner configures a per-block price band (symbolic
+/// limit); in the liquidation block another trader first moves the price (inside the band, up to
+/// exactly its edge for some limits), then a third party liquidates in that same block
+pub fn t_liq_band(p: P, mover_same: bool, units: u128, cheap: bool) -> impl Fn() {
+    move || {
+        let mut cfg = p.cfg();
+        let d = cfg.d();
+        cfg.init_ratio = Uint128::new(d / 10);
+        cfg.liq_fee = ratio("liq_fee", d, d / 20);
+        // `cheap`: a pool priced at 0.1 (reserves 100 : 1000). Below a price of 1 the band edges
+        // floor(last x (D +- f) / D) take EVERY integer value as f varies, so for the concrete
+        // trades of this template some limit puts an edge exactly on the resulting price
+        let sc = if cheap { 10 } else { 1 };
+        if cheap {
+            cfg.x0 = Uint128::new(100 * d);
+            cfg.y0 = Uint128::new(1_000 * d);
+            cfg.oracle_price = Uint128::new(d / 10);
+        }
+        let mut r = p.run_cfg(cfg);
+        p.prefix_mode();
+        let l = Uint128::new(10 * d);
+        let m1 = Uint128::new(25 * d / sc);
+        let f = funds_for(&r, &p, m1, l);
+        if !r.step(Op::Open { who: ALICE, side: p.side.clone(), margin: m1, lev: l, limit: Uint128::zero(), funds: f }).tx.ok {
+            return;
+        }
+        r.w.next_block(15);
+        let m2 = Uint128::new(units * d / sc);
+        let f = funds_for(&r, &p, m2, l);
+        if !r.step(Op::Open { who: BOB, side: opp(&p.side), margin: m2, lev: l, limit: Uint128::zero(), funds: f }).tx.ok {
+            return;
+        }
+        r.w.next_block(1000);
+        let fl = crate::sx::var("fluct", 1, d, d / 20);
+        assert!(r.w.update_vamm(0, None, None, None, None, Some(fl), None).ok);
+        r.w.next_block(15);
+        // the mover's trade in the liquidation block (the limit places the band edge relative to
+        // the resulting price; '.counter': the trade size is symbolic as well, so that the price
+        // can land exactly on an edge)
+        let m3 = if p.sym_counter { amount("m3", d, false, 2 + (p.seed % 4) as u128) } else { Uint128::new((2 + (p.seed % 4) as u128) * d / sc) };
+        let l3 = Uint128::new(2 * d);
+        let ms = if mover_same { p.side.clone() } else { opp(&p.side) };
+        let f = funds_for(&r, &p, m3, l3);
+        // explored exhaustively as well: a concolic run would pin "price < edge" where the code
+        // only asks for "not beyond the edge", and the on-the-edge case would never be reached
+        symrt::set_full(true);
+        r.step(Op::Open { who: CAROL, side: ms, margin: m3, lev: l3, limit: Uint128::zero(), funds: f });
+        r.step(Op::Liquidate { by: LIQ, trader: ALICE, limit: Uint128::zero() });
+        // and again in the next block (the band now refers to the block just ended)
+        r.w.next_block(15);
+        r.step(Op::Liquidate { by: EVE, trader: ALICE, limit: Uint128::zero() });
+    }
+}
+
+/// T-dep-close: alice 10x, bob trades against her until her loss exceeds her margin, alice
+/// deposits a symbolic amount (so that her equity crosses zero exactly at one value) and closes
+pub fn t_dep_close(p: P, units: u128) -> impl Fn() {
+    move || {
+        let mut cfg = p.cfg();
+        let d = cfg.d();
+        cfg.init_ratio = Uint128::new(d / 10);
+        let mut r = p.run_cfg(cfg);
+        p.prefix_mode();
+        let l = Uint128::new(10 * d);
+        let m1 = Uint128::new(25 * d);
+        let f = funds_for(&r, &p, m1, l);
+        if !r.step(Op::Open { who: ALICE, side: p.side.clone(), margin: m1, lev: l, limit: Uint128::zero(), funds: f }).tx.ok {
+            return;
+        }
+        r.w.next_block(15);
+        let m2 = Uint128::new(units * d);
+        let f = funds_for(&r, &p, m2, l);
+        if !r.step(Op::Open { who: BOB, side: opp(&p.side), margin: m2, lev: l, limit: Uint128::zero(), funds: f }).tx.ok {
+            return;
+        }
+        r.w.next_block(15);
+        symrt::set_full(true);
+        let a = amount("dep", d, false, 400);
+        let f = if p.native { Some(a) } else { None };
+        r.step(Op::Deposit { who: ALICE, amount: a, funds: f });
+        r.w.next_block(15);
+        r.step(Op::Close { who: ALICE, limit: Uint128::zero() });
+    }
+}
+
 // ------------------------------------------------------------------------------------------
 // generated histories
 // ------------------------------------------------------------------------------------------
@@ -629,6 +741,12 @@ pub fn t_gen(p: P, idx: u64) -> impl Fn() {
         }
         let mut r = p.run_cfg(cfg);
         symrt::set_full(false);
+        if p.native {
+            let mut g2 = Rng(p.seed.wrapping_mul(7_919).wrapping_add(idx) ^ 0xA77AC4);
+            if g2.chance(50) {
+                r.w.attach = Some(Uint128::new(g2.pick(&[1u128, 7, 300]) * d));
+            }
+        }
         if g.chance(15) {
             let f = Uint128::new(g.pick(&[d / 20, d / 10, d / 5]));
             for vi in 0..r.w.vamms.len() {
